@@ -10,11 +10,22 @@
     structs, histories and index statements likewise;
   * `pk_first` — `AddTable` moves the first line that declares the primary key to the front and keeps the other lines
     in their order (the result is that line followed by the remaining lines, unchanged).
+  * `column_name` — **the column is named by the `column:` item or the snake_case field name, behind the accumulated
+    prefix**: after the whole tag of a field the name is `nameOf pre items (pre ++ snake fieldName)`: the last `column:`
+    item wins (with a `,previous:` part the column is created under the old name — the rename statement follows), every
+    other item leaves the name alone; in particular `default_name`: without a `column:` item the name is the prefixed
+    snake_case field name.
+  * `primary_key_iff`, `not_null_iff`, `null_iff`, `auto_increment_iff` — **exactly the tagged options**: a flag is set
+    after the tag iff one of its items is that key, *in either spelling* (the comparison is on the item normalised by
+    `ToSnakeCase`: `primaryKey` and `primary_key`, `notNull` and `not_null`, …); no other item sets or clears it.
+  * `foreign_key_only_from_its_items` — a field gets a foreign-key attribute (and then no column) only from a
+    `foreign_key:` / `references:` / `constraint:` item.
   The full clause ("exactly one column per non-ignored field with exactly the tagged options…") is decided on every run:
   the generator derives the expected schema from the structured tag items by the documented conventions, the Go DDL is
   parsed by the independent grammar, executed on the reference engine and compared; the model's text must equal Go's.
 -/
 import SqlizeModel.Impl.Builder
+import SqlizeModel.Proofs.BuilderLaws
 
 namespace Sqlize.C06
 open Sqlize Sqlize.Builder
@@ -50,5 +61,46 @@ theorem pk_first (lines : List String) (isPk : String → Bool) (i : Nat) (h : l
   constructor
   · simp [pkFirst, h]
   · simp [pkFirst, h, List.length_take, List.length_drop]; omega
+
+/-- the state of the tag switch after the tag of a field -/
+def fieldState (c : Cfg) (tb pre : String) (pk : List String) (fieldName typeName tag : String) : TagState :=
+  tagFold c tb pre typeName { at_ := { name := pre ++ snake fieldName }, pkFields := pk } (tag.splitOn ";")
+
+theorem column_name (c : Cfg) (tb pre : String) (pk : List String) (fieldName typeName tag : String) :
+    (fieldState c tb pre pk fieldName typeName tag).at_.name = nameOf pre (tag.splitOn ";") (pre ++ snake fieldName) :=
+  tagFold_name_eq c tb pre typeName _ _
+
+theorem default_name (c : Cfg) (tb pre : String) (pk : List String) (fieldName typeName tag : String)
+    (h : ∀ ot ∈ tag.splitOn ";", (snake ot).startsWith "column:" = false) :
+    (fieldState c tb pre pk fieldName typeName tag).at_.name = pre ++ snake fieldName :=
+  tagFold_name c tb pre typeName _ _ h
+
+theorem primary_key_iff (c : Cfg) (tb pre : String) (pk : List String) (fieldName typeName tag : String) :
+    (fieldState c tb pre pk fieldName typeName tag).at_.isPk = (tag.splitOn ";").any (fun ot => snake ot == "primary_key") := by
+  unfold fieldState; rw [tagFold_isPk]; rfl
+
+theorem not_null_iff (c : Cfg) (tb pre : String) (pk : List String) (fieldName typeName tag : String) :
+    (fieldState c tb pre pk fieldName typeName tag).at_.isNotNull = (tag.splitOn ";").any (fun ot => snake ot == "not_null") := by
+  unfold fieldState; rw [tagFold_isNotNull]; rfl
+
+theorem null_iff (c : Cfg) (tb pre : String) (pk : List String) (fieldName typeName tag : String) :
+    (fieldState c tb pre pk fieldName typeName tag).at_.isNull = (tag.splitOn ";").any (fun ot => snake ot == "null") := by
+  unfold fieldState; rw [tagFold_isNull]; rfl
+
+theorem auto_increment_iff (c : Cfg) (tb pre : String) (pk : List String) (fieldName typeName tag : String) :
+    (fieldState c tb pre pk fieldName typeName tag).at_.isAutoIncr = (tag.splitOn ";").any (fun ot => snake ot == "auto_increment") := by
+  unfold fieldState; rw [tagFold_isAutoIncr]; rfl
+
+theorem foreign_key_only_from_its_items (c : Cfg) (tb pre : String) (pk : List String) (fieldName typeName tag : String)
+    (h : ∀ ot ∈ tag.splitOn ";", fkItem ot = false) : (fieldState c tb pre pk fieldName typeName tag).at_.fk = none :=
+  tagFold_fk c tb pre typeName _ _ h
+
+-- a test (evaluated, not proved: the string functions are defined by well-founded recursion): the two spellings of one
+-- tag, and a `column:` item with a previous name
+#guard (fieldState {} "t" "p_" [] "UserID" "int" "primaryKey;autoIncrement;column:uid").at_.name == "p_uid"
+#guard (fieldState {} "t" "p_" [] "UserID" "int" "primaryKey;autoIncrement;column:uid").at_.isPk
+#guard (fieldState {} "t" "p_" [] "UserID" "int" "primary_key;auto_increment").at_.isAutoIncr
+#guard (fieldState {} "t" "p_" [] "UserID" "int" "primary_key;auto_increment").at_.name == "p_user_id"
+#guard (fieldState {} "t" "" [] "Mail" "string" "column:email,previous:mail").at_.name == "mail"
 
 end Sqlize.C06
